@@ -25,7 +25,9 @@ impl Hooks for DsimHooks {
     }
     fn sleep(&self, dur: Duration) -> bool {
         if dsim::in_sim() {
+            crate::simnet::note_sleep(true, dur.as_nanos() as u64);
             dsim::sleep(dur.as_nanos() as u64);
+            crate::simnet::note_sleep(false, dur.as_nanos() as u64);
             true
         } else {
             false
@@ -40,6 +42,13 @@ impl Hooks for DsimHooks {
     }
     fn rng_seed(&self) -> Option<u64> {
         dsim::code_rng_seed()
+    }
+    fn net(&self) -> Option<&dyn metrics::__verif::net::Backend> {
+        if dsim::in_sim() {
+            Some(&crate::simnet::BACKEND)
+        } else {
+            None
+        }
     }
     fn ext(&self, name: &'static str) -> Option<&(dyn std::any::Any + Send + Sync)> {
         crate::simnet::ext(name)
